@@ -2,9 +2,9 @@
 from . import tlaval
 
 
-def step(kind='sync', n=0, status='-', emits=(), cmd='stop', next=0, args=(), kw=(), val='-', aws=(), via='return'):
+def step(kind='sync', n=0, status='-', emits=(), cmd='stop', next=0, args=(), kw=(), val='-', aws=(), via='return', makes=()):
     return {'kind': kind, 'n': n, 'status': status, 'emits': [list(e) for e in emits], 'cmd': cmd, 'next': next,
-            'args': list(args), 'kw': [list(p) for p in kw], 'val': val, 'aws': list(aws), 'via': via}
+            'args': list(args), 'kw': [list(p) for p in kw], 'val': val, 'aws': list(aws), 'via': via, 'makes': list(makes) or list(aws)}
 
 
 # The program family of DESIGN.md Appendix D (values are model strings; "vN" is the integer N).
@@ -44,7 +44,10 @@ PROGS.update({
     'W4': [step(cmd='await', next=2, aws=[1, 2, 3]), step(cmd='stop', val='-')],
     'W5': [step(cmd='continue', next=2), step(cmd='await', next=3, aws=[1, 2]), step(cmd='stop', val='-')],
 })
-AWT = {'W1': ['a', 'b'], 'W2': ['a', 'b'], 'W3': ['a', 'a'], 'W4': ['a', 'b', 'c'], 'W5': ['a', 'b']}
+# W6: both items are created (children: launched) by step 1, the second one is handed to the context only by step 2,
+# possibly after it has already completed, failed or been killed
+PROGS['W6'] = [step(cmd='await', next=2, aws=[1], makes=[1, 2]), step(cmd='await', next=3, aws=[2], via='call'), step(cmd='stop', val='-')]
+AWT = {'W6': ['a', 'b'], 'W1': ['a', 'b'], 'W2': ['a', 'b'], 'W3': ['a', 'a'], 'W4': ['a', 'b', 'c'], 'W5': ['a', 'b']}
 
 ALL_REQUESTS = ['kill', 'pause', 'play', 'resume', 'fail', 'cancel', 'cbok', 'cbraise']
 
